@@ -6,7 +6,7 @@ import numpy as np
 import z3
 
 from symx.arr import NPProxy, SymArray, fork_where, fresh
-from symx.core import SC, SV, Explorer, ShimGap, concretize, differs, differs_nan, lift, sqof, toc
+from symx.core import SC, SV, Abort, Explorer, ShimGap, concretize, differs, differs_nan, lift, sqof, toc
 from symx.harness import Tally, to_json
 from symx.twin import World
 
@@ -21,7 +21,9 @@ META = {
                    "order.  O3 the real ssi.ac2mp under an eig stub / uninterpreted log: lam_c = L(lambda)/dt, fn^2 (2 pi)^2 = |lam_c|^2, "
                    "xi^2 |lam_c|^2 = Re^2 with opposite signs, shapes = C v_j normalised by the largest-modulus component, row j belongs to "
                    "eigenvalue j.  O4 the real ssi.SSI_poles (ac2mp stubbed to tagged symbols): column ii holds the ii poles of order ii in "
-                   "rows 0..ii-1, everything else (including column 0) is NaN.",
+                   "rows 0..ii-1, everything else (including column 0) is NaN.  O5 the real SSIdat/SSIcov.run with identification stubbed to "
+                   "label-carrying tables: reference rows handed to build_hank are the channels ref_ind in the listed order and component k "
+                   "of every stored mode shape belongs to data channel k.",
     "bounds": {"quick": {"order": 2, "channels": "1..2", "block rows": "2..3", "O4": "ordmax 3, 2 channels"},
                "thorough": {"order": 2, "channels": "1..3", "block rows": "2..4", "O4": "ordmax 4"}},
     "stubs": ["np.linalg.svd: returns prescribed factors (first ordmax left singular vectors scaled by sqrt(s) span col(H): Obs = O*T)",
@@ -182,11 +184,14 @@ def jobs(tier):
         out.append({"ob": "O3", "cfg": {"nch": nch}})
     for ordmax in ((3,) if q else (3, 4)):
         out.append({"ob": "O4", "cfg": {"ordmax": ordmax, "nch": 2}})
+    for cls in ("SSIdat", "SSIcov"):
+        for ref in (None, [0], [2], [2, 0]) if q else (None, [0], [1], [2], [0, 1], [2, 0], [1, 2, 0]):
+            out.append({"ob": "O5", "cfg": {"cls": cls, "nch": 3, "ref_ind": ref}})
     return out
 
 
 def run(job, tier):
-    return {"O2": run_real, "O3": run_modal, "O4": run_table}[job["ob"]](job["cfg"], tier)
+    return {"O2": run_real, "O3": run_modal, "O4": run_table, "O5": run_wiring}[job["ob"]](job["cfg"], tier)
 
 
 def system(l):
@@ -259,6 +264,150 @@ def run_real(cfg, tier):
         tally.decide(e, neg, on_sat=lambda m, why=tuple(why): cex_real(cfg, "; ".join(why) or None), with_side=not why,
                      label=f"{cfg['fn']} l={l} br={br}: T A_est == A T, C_est == C T")
     return tally.result(ex)
+
+
+# ------------------------------------------------------------------------------------------ O5 class wiring
+class _O:
+    pass
+
+
+def _wiring_world(cfg, rec, sym):
+    """identification stubbed: build_hank records what it is handed; SSI_poles returns tables whose channel axis carries the
+    channel of the corresponding row of the Y handed to build_hank (symbolic cells when sym, numbers otherwise)"""
+    R, C = 2, 3
+
+    def build_hank(Y, Yref, br, method, calc_unc=False, nb=100):
+        rec.update(Y=Y, Yref=Yref, method=method)
+        return np.zeros((2, 2)), None
+
+    def SSI_fast(H, br, ordmax, step=1, calc_unc=False, T=None, nb=100):
+        return np.zeros((2, 2)), [np.zeros((2, 2))], [np.zeros((2, 2))], None, None, None, None
+
+    def SSI_poles(*a, **k):
+        rows = rec["rows"](rec["Y"])
+        Fn = np.array([[1.0 + i + 3 * j for j in range(C)] for i in range(R)])
+        Xi = np.full((R, C), 0.01)
+        L = (-0.05 + 1j) * Fn
+        if sym:
+            Phi = np.empty((R, C, len(rows)), dtype=object)
+            for ix in np.ndindex(R, C):
+                for k_, ch in enumerate(rows):
+                    Phi[ix + (k_,)] = SC(z3.Real(f"phi_{ix[0]}_{ix[1]}_ch{ch}r"), z3.Real(f"phi_{ix[0]}_{ix[1]}_ch{ch}i"))
+            Phi = SymArray(Phi)
+        else:
+            Phi = np.array([[[(10 * i + j) + 1j * (ch + 1) for ch in rows] for j in range(C)] for i in range(R)])
+        return Fn, Xi, Phi, L, None, None, None
+
+    gen_stub = {"MPC": lambda phi: np.float64(1.0), "MPD": lambda phi: np.float64(0.0), "SC_apply": lambda Fn, *a, **k: np.zeros(np.shape(Fn), dtype=int)}
+    return {"pyoma2.functions.ssi": {"build_hank": build_hank, "SSI_fast": SSI_fast, "SSI_poles": SSI_poles}, "pyoma2.functions.gen": gen_stub}
+
+
+def _run_params(cfg):
+    rp = _O()
+    rp.br, rp.method, rp.ordmin, rp.ordmax, rp.step, rp.calc_unc, rp.nb = 2, None, 0, 2, 1, False, 2
+    rp.ref_ind = None if cfg["ref_ind"] is None else list(cfg["ref_ind"])
+    rp.sc = dict(err_fn=0.01, err_xi=0.05, err_phi=0.03)
+    rp.hc = dict(conj=False, xi_max=1.0, mpc_lim=0.0, mpd_lim=10.0, cov_max=10.0)
+    return rp
+
+
+def run_wiring(cfg, tier):
+    """SSIdat/SSIcov.run: the reference data handed to build_hank are the channels ref_ind of the bound data in the listed order,
+    and component k of every stored mode shape belongs to data channel k (whatever order the channels were identified in)"""
+    import pyoma2.algorithms.ssi as assi
+    nch, N = cfg["nch"], 5
+    rec = {}
+    W = World(per_module=_wiring_world(cfg, rec, True))
+    cls = getattr(assi, cfg["cls"])
+    tally = Tally(W, [cfg["cls"] + ".run", "SSIdat.run"])
+    ex = Explorer()
+    st = {}
+
+    def body():
+        data = fresh("d", (N, nch))
+        st["data"] = data
+
+        def rows(Y):
+            Y = np.asarray(Y, dtype=object)
+            out = []
+            for k in range(Y.shape[0]):
+                hit = [c for c in range(nch) if all(z3.eq(lift(Y[k, t]).v, data[t, c].v) for t in range(N))]
+                if len(hit) != 1 or Y.shape[1] != N:
+                    raise Abort("build_hank was handed rows that are not channels of the bound data")
+                out.append(hit[0])
+            return out
+        rec["rows"] = rows
+        alg = W.carrier(cls, run_params=_run_params(cfg), data=data, fs=10.0, dt=0.1, name="alg")
+        return alg.run()
+
+    for e, (kind, res) in ex.run_all(body):
+        why, bad = [], []
+        if kind == "exc":
+            why.append(f"raised {type(res).__name__}: {res}")
+        else:
+            try:
+                yrows, rrows = rec["rows"](rec["Y"]), rec["rows"](rec["Yref"])
+            except Abort as ex_:
+                yrows = rrows = None
+                why.append(str(ex_))
+            want_ref = list(range(nch)) if cfg["ref_ind"] is None else list(cfg["ref_ind"])
+            if yrows is not None:
+                if sorted(yrows) != list(range(nch)):
+                    why.append(f"build_hank was handed channels {yrows} (every channel exactly once expected)")
+                if rrows != want_ref:
+                    why.append(f"reference rows handed to build_hank are channels {rrows}, expected {want_ref}")
+                Phi = res.Phi_poles
+                if np.shape(Phi) != (2, 3, nch):
+                    why.append(f"Phi_poles shape {np.shape(Phi)}")
+                else:
+                    for ix in np.ndindex(2, 3):
+                        for ch in range(nch):
+                            want = SC(z3.Real(f"phi_{ix[0]}_{ix[1]}_ch{ch}r"), z3.Real(f"phi_{ix[0]}_{ix[1]}_ch{ch}i"))
+                            bad.append(differs_nan(Phi[ix + (ch,)], want))
+        neg = z3.BoolVal(True) if why else z3.Or(*bad)
+        tally.decide(e, neg, on_sat=lambda m, why=tuple(why): cex_wiring(cfg, "; ".join(why) or "component k of the stored shapes is not channel k"),
+                     with_side=False, label=f"{cfg['cls']} ref_ind={cfg['ref_ind']}: shape rows follow the data channels")
+    return tally.result(ex)
+
+
+def cex_wiring(cfg, note):
+    v, d = replay_wiring(cfg)
+    return {"inputs": {}, "reproduced": v, "detail": note + " | " + d, "key": f"{cfg['cls']}.run:channel-order"}
+
+
+def replay_wiring(cfg):
+    """the real run() (real HC filters) with the identification functions replaced by recorders returning numeric tables whose
+    channel axis is tagged by the rows of the Y they were handed"""
+    import pyoma2.algorithms.ssi as assi
+    import pyoma2.functions.gen as fgen
+    import pyoma2.functions.ssi as fssi
+    nch, N = cfg["nch"], 5
+    rec = {}
+    data = np.arange(N * nch, dtype=float).reshape(N, nch) + 0.5
+
+    def rows(Y):
+        return [int(np.argmin([np.abs(Y[k] - data[:, c]).sum() for c in range(nch)])) for k in range(np.shape(Y)[0])]
+    rec["rows"] = rows
+    stubs = _wiring_world(cfg, rec, False)
+    saved = {(m, k): getattr(m, k) for m, d in ((fssi, stubs["pyoma2.functions.ssi"]), (fgen, stubs["pyoma2.functions.gen"])) for k in d}
+    try:
+        for (m, k) in saved:
+            setattr(m, k, (stubs["pyoma2.functions.ssi"] if m is fssi else stubs["pyoma2.functions.gen"])[k])
+        alg = object.__new__(getattr(assi, cfg["cls"]))
+        alg.run_params, alg.data, alg.fs, alg.dt, alg.name = _run_params(cfg), data, 10.0, 0.1, "alg"
+        res = alg.run()
+    except Exception as e:  # noqa: BLE001
+        return True, f"run() raised {type(e).__name__}: {e}"
+    finally:
+        for (m, k), f in saved.items():
+            setattr(m, k, f)
+    want_ref = list(range(nch)) if cfg["ref_ind"] is None else list(cfg["ref_ind"])
+    if rows(rec["Yref"]) != want_ref:
+        return True, f"reference rows handed to build_hank are channels {rows(rec['Yref'])}, expected {want_ref}"
+    got = np.round(np.asarray(res.Phi_poles)[0, 0, :].imag).astype(int) - 1
+    if list(got) != list(range(nch)):
+        return True, f"component k of the stored mode shapes belongs to channels {list(got)} (ref_ind={cfg['ref_ind']})"
+    return False, "shape rows follow the data channels"
 
 
 def cex_real(cfg, note):
@@ -482,6 +631,8 @@ def replay_table(cfg):
 def replay(ob, cfg, inputs):
     if ob == "O2":
         return replay_real(cfg)
+    if ob == "O5":
+        return replay_wiring(cfg)
     if ob == "O3":
         return replay_modal(cfg)
     return replay_table(cfg)
